@@ -301,6 +301,12 @@ Proof.
 Qed.
 
 (** * statements for Props/C10.v *)
+Theorem cc_total_conn g s : wf_graph g ->
+  exists comps, connected_components g s = Some comps /\ Forall (compP g s) comps.
+Proof.
+  intro W. destruct (cc_total g s W) as [comps H]. exists comps. split; auto. now apply cc_conn.
+Qed.
+
 Theorem acb_connected_complete g k c : wf_graph g -> connected_components g [] = Some [c] ->
   tw_perm g <= k -> exists t, acb_connected g k = ATree t.
 Proof.
